@@ -88,6 +88,10 @@ def main(argv=None):
         with ctx.Pool(nproc, maxtasksperchild=1) as pool:
             results = pool.map(_job, jobs, chunksize=1)
 
+    if a.v:
+        for r in sorted(results, key=lambda r: -(r.get('wall_s') or 0)):
+            print('  job %s %s wall=%.1fs paths=%s label_s=%s' % (r['harness'], r['params'], r.get('wall_s') or 0, r.get('paths'),
+                                                              sorted((r.get('label_s') or {}).items(), key=lambda kv: -kv[1])[:4]))
     known, _fixed = load_known()
     known_keys = {k['key']: k for k in known if k.get('property') == prop}
     errors, violations, known_hits, inconclusive = [], [], [], []
